@@ -241,6 +241,28 @@ PROPS["C16"] = dict(
          "non-trivial = any distinct op",
     assumptions=["Go memory model and race detector; schedules of the real code are sampled"],
 )
+PROPS["C17"] = dict(
+    n_quick=250, n_thorough=6000, pre=["build_clis"], timeout=2400,
+    classify=lambda op, i, m: "seqls:" + op.split(" ")[1],
+    rule="op seqls: the real binary (built from /repo/cmd/seqls on every run) on a generated tree (1-6 directories, depth <= 4, "
+         "hidden directories and files, empty directories, file links, one directory link per target placed in the tree root; "
+         "flag 'C': aliased and cyclic links anywhere, termination only) x random subsets of -r -a -s --hash1 -f x 1-3 root "
+         "arguments (directories in 4 spellings, '.', the absolute root, a missing path, a pattern); every op runs the binary "
+         "with GOMAXPROCS 1, 2 and 16 under a 20 s deadline; observed: sorted lines, their expansion (exact cover vs the selected "
+         "files, once per visiting path), error-line count, run-to-run stability, timeout; non-trivial = any distinct op",
+    assumptions=["fastwalk: callback once per entry, returns after all callbacks", "scheduler fairness", "schedules of the real binary are sampled",
+                 "basenames in generated trees do not end in a digit or '-', so that a printed line re-parses unambiguously"],
+)
+PROPS["C18"] = dict(
+    n_quick=400, n_thorough=8000, pre=["build_clis"], timeout=2400,
+    classify=lambda op, i, m: "seqinfo:" + op.split(" ")[1] + ":" + op.split(" ")[2],
+    rule="op seqinfo: the real binary (built from /repo/cmd/seqinfo on every run) on 1-64 valid-UTF-8 patterns (duplicates, "
+         "malformed ones) through arguments or stdin x random subsets of --hash1 -d -b -r -p -e --format (8 templates of literal "
+         "text and niladic actions) --inverted -i -f, always with --json parsed back, three runs with GOMAXPROCS 1 / 16 / 4, plus "
+         "a plain-output run; observed: one entry per distinct pattern with all 12 fields, plain/json agreement, run-to-run "
+         "stability; a crash fails the op; non-trivial = any distinct op",
+    assumptions=["go-flags argument parsing trusted", "text/template trusted for the generated templates"],
+)
 PROPS["C20"] = dict(
     n_quick=3000, n_thorough=40000, impl_cmd=[__import__("os").path.join(__import__("os").path.dirname(__import__("os").path.dirname(__import__("os").path.abspath(__file__))), "build", "handles", "handlesdrv")],
     pre=["build_handles"], timeout=1500,
@@ -400,6 +422,17 @@ MANIFEST_TEXT = {
              "any schedule); the hypothesis is discharged against the code by the regenerated fact that no function outside init "
              "writes package-level state. The Go runtime side is exercised by fresh -race processes from a cold start.",
         note="Partial: Go memory model, stdlib thread safety and the syntactic alias approximation of gofacts are assumed."),
+    "C17": dict(
+        text="Theorems over the channel pipeline as a transition system, any number of workers >= 1, any items, every schedule: "
+             "conservation, no deadlock, termination by a decreasing measure, no send on a closed channel, final printed multiset "
+             "= expected, bad items isolated; skeleton of manager.go re-extracted per run. What each item yields is the Disk "
+             "model (C05-C07). The real binary is run on generated trees under three GOMAXPROCS values.",
+        note="Partial: fastwalk internals, scheduler fairness and the schedule space of the real binary are outside the model."),
+    "C18": dict(
+        text="Theorems: one entry per distinct pattern, content independent of the order in which the concurrent parses finish, the "
+             "entry is the library's result for that pattern, a failing pattern yields an error entry keyed by itself; the option "
+             "pipeline is by definition the model's setters in the documented order; skeleton re-extracted per run.",
+        note="Partial: --format with arbitrary templates (text/template) and go-flags are trusted."),
     "C20": dict(
         text="Theorems over a small-step model with one action per Go statement touching shared state, for any number of threads and "
              "handles and every interleaving: count = owned references, resolves while positive, removed exactly at zero, empty at "
